@@ -1005,8 +1005,46 @@ def check_C20(ctx):
                      "the closed-check and the backend call while the Database is dropped (pause point) - a known finding. non-trivial = scenarios")
 
 
+def check_C15(ctx):
+    build()
+    tlc_check(ctx, "KeyOrder", "MC_KeyOrder.cfg", workers=2, timeout=900)
+    trace = os.path.join(ctx.work, "keys.ndjson")
+    p = sh([bin_path("keys"), "--seed", str(ctx.seed), "--size", str(tiered(ctx, 36, 90)), "--out", trace], timeout=1800)
+    stats = json.loads(p.stdout.strip().splitlines()[-1])
+    log(f"keys: {stats['pairs']} ordered pairs, {stats['separators']} separators ({stats['separators_shorter_than_left']} shorter than left), "
+        f"{stats['round_trips']} round trips")
+    ok, info = tlc_trace_generic(ctx, "KeyOrderTrace", trace)
+    ctx.cov["evaluations"] += stats["events"]
+    ctx.cov["distinct_nontrivial"] += stats["separators"] + stats["pairs"]
+    ctx.notes["keys"] = stats
+    if stats["separators_shorter_than_left"] < 100:
+        raise ToolError(f"vacuity: the corpus hardly exercises separator shortening: {stats}")
+    if not ok:
+        rec = info["record"]
+        what = f"built-in key type {rec.get('t')}: KeyOrderTrace rejects {json.dumps(rec)}"
+        sig = f"keys:{rec.get('t')}:{rec.get('e')}"
+        payload = {"property": ctx.prop, "kind": "keys", "seed": ctx.seed, "size": tiered(ctx, 36, 90), "record": rec, "what": what, "signature": sig}
+        raise Violation(ctx.prop, save_replay(ctx.prop, payload), what, sig)
+    ctx.cov["traces_validated_against_impl"] += 1
+    lines = open(trace).read().splitlines()
+    ctx.add_samples([json.loads(lines[i]) for i in (len(lines) // 3, 2 * len(lines) // 3)])
+    ctx.assumptions += ["the order of VALUES is taken from Rust's own Ord on the native types (integers, bool, char, str, slices, Option, arrays, "
+                        "tuples); the corpus, not every value, is enumerated for types wider than 8 bits",
+                        "this is a family of pure functions: the specification contributes the contract and the model-checked separator rules, the "
+                        "enumeration is over real encodings"]
+    return dict(level="exploration", exhaustive=False,
+                rule="design: KeyOrder.tla - the separator rules of &[u8], &str (char-boundary rounding), Option<T>, [T;2] transcribed and checked by "
+                     "TLC for all strings up to length 3 over a 3-symbol alphabet / all UTF-8-shaped strings of 3 characters: a <= s < b, "
+                     "|s| <= |a|, s valid; lexicographic order is a strict total order. code: for 26 built-in key types (ints of every width and "
+                     "sign, bool, (), char, &str, String, &[u8], &[u8;4], Option of fixed and variable payloads, arrays of fixed/variable "
+                     "elements, tuples) every ordered pair of a corpus with extreme, empty, equal-prefix and multi-byte values: compare() must "
+                     "equal the native order (both directions), separator() must satisfy the contract and decode, from_bytes(as_bytes(v)) = v. "
+                     "TLC (KeyOrderTrace.tla) judges each record. distinct_nontrivial = ordered pairs + separators")
+
+
 PROPS = {
     "C01": check_C01,
+    "C15": check_C15,
     "C20": check_C20,
     "C08": check_C08,
     "C14": check_C14,
@@ -1052,7 +1090,7 @@ def main(argv):
                 still = replay_crash_case(ctx, replay)
             elif payload.get("kind") == "sched":
                 still = replay_sched(ctx, payload)
-            elif payload.get("kind", "").startswith("contract"):
+            elif payload.get("kind", "").startswith("contract") or payload.get("kind") == "keys":
                 try:
                     PROPS[prop](ctx)
                     still = False
